@@ -45,7 +45,7 @@ def expand(ctx, item):
         if ops.is_edit(op):
             out.append((op, ops.edit(tree, op) if cont else None, m2, [], "edit:" + op[0]))
             continue
-        now = sub.NOW0 + (0 if meta.get("frozen") else 10 * meta.get("clock", depth))
+        now = meta.get("t0", sub.NOW0) + (0 if meta.get("frozen") else 10 * meta.get("clock", depth))
         if meta.get("spell") and isinstance(op[1], dict) and "root" in op[1] and not op[1].get("slash"):
             op = [op[0], dict(op[1], spell=meta["spell"])]   # the root folder as a user may spell it (see ops.root_arg)
         res, post, viols = run_and_judge(ctx, tree, op, now, meta)
